@@ -63,7 +63,8 @@ def cases(tier, seed, rnd):
         cs.append(dict(k='call', items=items[i:i + 40], seed=seed))
     # (c) atoms
     for atom in ATOMS:
-        for sign, mult, off in itertools.product((1, -1), (1, 2.5), ('none', 'const', 'affine')):
+        # S and Q store sqrt(|c|): use a perfect square so that the float multiplier is exact
+        for sign, mult, off in itertools.product((1, -1), (1, 2.25 if atom in ('S', 'Q') else 2.5), ('none', 'const', 'affine')):
             cs.append(dict(k='atom', atom=atom, sign=sign, mult=mult, off=off))
     # (d) LDR read-back
     for mask in ('all', 'first', 'slice', 'none'):
